@@ -69,4 +69,12 @@ theorem shape_ServeHTTP_ok : Oidc.Shapes.Shape_ServeHTTP := by unfold Oidc.Shape
 theorem shape_handleExpiredToken_ok : Oidc.Shapes.Shape_handleExpiredToken := by unfold Oidc.Shapes.Shape_handleExpiredToken; rfl
 theorem shape_defaultInitiateAuthentication_ok : Oidc.Shapes.Shape_defaultInitiateAuthentication := by unfold Oidc.Shapes.Shape_defaultInitiateAuthentication; rfl
 
+/-! obligations against the regenerated program text of session.go: the functions these theorems rest on read, statement for
+    statement, as they did when the session model was written after them (`Oidc/Shapes.lean`) -/
+theorem text_SessionManager_GetSession_ok : Oidc.Shapes.Text_SessionManager_GetSession := by unfold Oidc.Shapes.Text_SessionManager_GetSession; rfl
+theorem text_SessionManager_getTokenChunkSessions_ok : Oidc.Shapes.Text_SessionManager_getTokenChunkSessions := by unfold Oidc.Shapes.Text_SessionManager_getTokenChunkSessions; rfl
+theorem text_SessionData_Clear_ok : Oidc.Shapes.Text_SessionData_Clear := by unfold Oidc.Shapes.Text_SessionData_Clear; rfl
+theorem text_SessionData_GetAccessToken_ok : Oidc.Shapes.Text_SessionData_GetAccessToken := by unfold Oidc.Shapes.Text_SessionData_GetAccessToken; rfl
+theorem text_SessionData_GetRefreshToken_ok : Oidc.Shapes.Text_SessionData_GetRefreshToken := by unfold Oidc.Shapes.Text_SessionData_GetRefreshToken; rfl
+
 end Oidc.Props.C17
